@@ -11,8 +11,46 @@ TEXT = {
 }
 
 
+KNOWN_API = ("take_cf_content", "FieldState::", "Deserr::deserialize_from_value", "DeserializeError::error", "MergeWithError::merge", "IntoValue::", "Map::", "Sequence::",
+             "ValuePointerRef::", "Value::", "ErrorKind::", "ValueKind::", "deserialize")
+
+
+def unknown_library_api(ctx):
+    """library functions the generated code of the catalogue calls that the skeleton reader does not model (e.g. run-time helpers
+    a restructured template delegates to): with any of them in play, what the reader extracts is not the whole story"""
+    from sites import npath
+    from analysis import erase_generics
+    try:
+        cat = ctx.corpus("catalogue")["deserr_catalogue"]
+    except Exception:
+        return []
+    unknown = set()
+    for b in cat.bodies:
+        if not (b.impl_trait and npath(b.impl_trait) == "Deserr") and not (b.root != b.path):
+            continue
+        for blk in b.blocks:
+            tm = blk["term"]
+            if tm["k"] != "call" or tm["func"].get("k") != "const" or "fn" not in tm["func"]:
+                continue
+            fn = tm["func"]["fn"]
+            if fn.get("krate") != "deserr":
+                continue
+            if fn.get("trait"):
+                continue
+            nm = npath(erase_generics(fn.get("path") or ""))
+            if not any(nm == k or nm.startswith(k) for k in KNOWN_API):
+                unknown.add(nm)
+    return sorted(unknown)
+
+
 def run_for(ctx, pid):
     R = derive_rules.run(ctx)
+    unk = unknown_library_api(ctx)
+    if unk:
+        for f in R.findings:
+            if not f.rule.endswith(".BUILD") and ".G" not in f.rule:
+                f.undecided = True
+                f.what += "  [the generated code calls library helpers the reader does not model: %s - undecided]" % ", ".join(unk[:3])
     res = PropResult(pid)
     res.level = "translation_validation" if False else "other"
     by_rule = {}
